@@ -8,6 +8,7 @@ MAIN_PID = os.getpid()
 STATE = {'faults': [], 'counts': {}, 'out': '/nonexistent/out.bam', 'fired': []}
 SHARED = multiprocessing.Value('i', 0)      # number of run_tagging_tasks calls (all processes)
 MOLS = multiprocessing.Value('i', 0)        # number of write_pysam calls (all processes)
+WORKER_COUNTS = {k: multiprocessing.Value('i', 0) for k in ('write_pysam', 'mol_next', 'write_tags')}
 ORIG = {}
 
 
@@ -41,6 +42,12 @@ def hit(point, **ctx):
     c = STATE['counts']
     k = c.get(point, 0)
     c[point] = k + 1
+    if not in_main() and point in WORKER_COUNTS:
+        # inside pool workers the call index is global over all workers
+        v = WORKER_COUNTS[point]
+        with v.get_lock():
+            k = v.value
+            v.value += 1
     for flt in STATE['faults']:
         if flt['point'] != point:
             continue
@@ -361,6 +368,8 @@ def run_tagger(tm, case, d, out, faults):
     STATE['out'] = os.path.abspath(out)
     SHARED.value = 0
     MOLS.value = 0
+    for v in WORKER_COUNTS.values():
+        v.value = 0
     inp = os.path.join(d, 'input.bam')
     if not os.path.exists(inp):
         shutil.copy(INPUTS[case['bam']], inp)
